@@ -68,16 +68,18 @@ func (t *Txn) Commit() error {
 		return ErrConflictTxn
 	}
 
-	// TODO: support txn crush recovery (txnEnt and txnFin)
-
+	// all writes of the transaction go to the wal in one append, so that a
+	// crash leaves either all of them or none
+	entries := make([]types.Entry, 0, len(t.pendingWrites))
 	for _, v := range t.pendingWrites {
-		t.db.rawset(types.Entry{
+		entries = append(entries, types.Entry{
 			Key:       types.KeyWithTs(v.Key, commitTs),
 			Value:     v.Value,
 			Tombstone: v.Tombstone,
 			Version:   int64(commitTs),
 		})
 	}
+	t.db.rawset(entries...)
 
 	orc.doneCommit(commitTs)
 
